@@ -47,6 +47,14 @@ Theorem C20_accepted_index_is_safe : forall i : pidx, view_svsizes true i = Ok t
 Proof. exact fixed_svsizes_ok. Qed.
 Print Assumptions C20_accepted_index_is_safe.
 
+(* an element post with two elements at one position, or an element that repeats a tag, is a
+   client error and leaves the store as it was (Elements.validate, C13 fix cb2a6f1) *)
+Theorem C20_malformed_elements_rejected : forall gunzip blocks st,
+  elements_valid (List.concat (map fst blocks)) = false ->
+  handle gunzip true (RElements blocks) st = (st, Rejected).
+Proof. intros gunzip blocks st H. cbn [handle]. rewrite (post_elements_invalid blocks H). reflexivity. Qed.
+Print Assumptions C20_malformed_elements_rejected.
+
 (* rejected_is_framed — a request whose payload is decoded and checked as a whole (everything
    but the block and index streams) and is then rejected leaves the store exactly as it was ... *)
 Theorem C20_rejected_is_framed : forall gunzip (r : request) (st st' : store),
